@@ -74,7 +74,7 @@ def unpackFlags (bs : List UInt8) : List Bool := bs.flatMap unpackByte
 
 inductive PErr where
   | noTx | noFlags | noHashes | noBits | dup | leftNil | invalidLeaf | rootMismatch | fuel
-  | txNotFound | nodeMissing
+  | txNotFound | nodeMissing | tooMany
   deriving DecidableEq, Repr
 
 inductive PRes (β : Type) where
@@ -120,9 +120,10 @@ def extract [DecidableEq α] (H : α → α → α) (n : Nat) :
         else .ok ⟨H l.hash l.hash, l.ids, l.nodes ++ [((h + 1, pos), H l.hash l.hash)], l.bits, l.hashes⟩
 
 /-- specification of `CheckMerkleBlock`: parse from the top, compare with the header root. -/
-def extractTop [DecidableEq α] (H : α → α → α) (n : Nat) (root : α) (bits : List Bool) (hashes : List α) :
+def extractTop [DecidableEq α] (H : α → α → α) (maxTx n : Nat) (root : α) (bits : List Bool) (hashes : List α) :
     PRes (List α × List ((Nat × Nat) × α)) :=
   if n = 0 then .err .noTx else
+  if n > maxTx then .err .tooMany else
   if bits.isEmpty then .err .noFlags else
   match extract H n (treeHeight n) 0 bits hashes with
   | .error e => .err e
@@ -204,10 +205,11 @@ def run {P : Type} [DecidableEq α] (ops : PosOps P) (H : α → α → α) (roo
     | .done r => r
     | .next st' => run ops H root fuel st'
 
-/-- `CheckMerkleBlock` / `getNodes` from the top. -/
-def machine {P : Type} [DecidableEq α] (ops : PosOps P) (H : α → α → α) (n : Nat) (root : α)
+/-- `CheckMerkleBlock` / `getNodes` from the top; `maxTx` is `pact.MaxTxPerBlock`. -/
+def machine {P : Type} [DecidableEq α] (ops : PosOps P) (H : α → α → α) (maxTx n : Nat) (root : α)
     (bits : List Bool) (hashes : List α) (fuel : Nat) : PRes (List α × List (P × α)) :=
   if n = 0 then .err .noTx else
+  if n > maxTx then .err .tooMany else
   if bits.isEmpty then .err .noFlags else
   run ops H root fuel ⟨[], ops.root, bits, hashes, [], []⟩
 
@@ -288,9 +290,9 @@ def collect (nodes : List (Nat × α)) : List Nat → Nat → Option (List α ×
     | _, _ => none
 
 /-- `GetTxMerkleBranch(msg, txID)` -/
-def branchOf [DecidableEq α] (H : α → α → α) (n : Nat) (root : α) (bits : List Bool) (hashes : List α)
+def branchOf [DecidableEq α] (H : α → α → α) (maxTx n : Nat) (root : α) (bits : List Bool) (hashes : List α)
     (txid : α) (fuel : Nat) : PRes (List α × Nat) :=
-  match machine (goOps n) H n root bits hashes fuel with
+  match machine (goOps n) H maxTx n root bits hashes fuel with
   | .err e => .err e
   | .panic => .panic
   | .ok (_, nodes) =>
